@@ -78,7 +78,33 @@ class C06(ExprProp):
         for _ in range(n):
             e = G.rand_expr(rng, rng.range(2, 5), calls=True)
             items.append((e, G.layout_for(e, rng, rng.choice(["canon", "tight", "random"])), "random-deep"))
-        return expr_cases(items, starstar=True)
+        cases = expr_cases(items, starstar=True)
+        # long chains (hundreds of operands, groups sprinkled in) under random blank runs: grouping
+        # and blank-independence do not wear off with length. Expected value: Python integers on the
+        # same text with every blank run replaced by one space.
+        BL = [" ", "  ", "\t", " \u00a0", "\u2003", " \t "]
+        lengths = (list(range(50, 420, 9)) + [257, 513, 1025]) if tier == "quick" else (list(range(2, 600, 2)) + [1025, 2049, 4097])
+        for n_ in lengths:
+            text = plain = ""
+            for i in range(n_):
+                if i:
+                    op = rng.choice("+-*")
+                    b1, b2 = rng.choice(BL), rng.choice(BL)
+                    if op == "*" and rng.chance(1, 2):
+                        b1 = b2 = ""
+                    text += b1 + op + b2
+                    plain += " " + op + " "
+                if rng.chance(1, 8):
+                    a, b, o2 = rng.range(1, 9), rng.range(1, 9), rng.choice("+-*")
+                    b3 = rng.choice(BL)
+                    text += f"({a}{b3}{o2}{b3}{b})"
+                    plain += f"({a} {o2} {b})"
+                else:
+                    v_ = str(rng.range(1, 9))
+                    text += v_
+                    plain += v_
+            cases.append(Case("query " + C.hexs(text), "long-chain", plain[:50] + f"… ({n_} operands)", expect=f"{eval(plain)}/1"))
+        return cases
 
 
 class C01(ExprProp):
@@ -113,14 +139,30 @@ class C01(ExprProp):
             a = "".join(str(rng.below(10)) for _ in range(rng.range(30, 160)))
             b = "".join(str(rng.below(10)) for _ in range(rng.range(30, 160))) + "." + str(rng.below(1000))
             items.append((B(rng.choice("+-*/"), L(a), L(b)), [], "big"))
-        return expr_cases(items)
+        cases = expr_cases(items)
+        # long flat chains: nothing in the property bounds the length of an expression (the parser
+        # refills its token buffer as it goes; hundreds and thousands of tokens must behave like ten).
+        # Expected value by Python's integer arithmetic (same precedence, left association).
+        if tier == "quick":
+            lengths = list(range(40, 400, 7)) + [64, 65, 66, 128, 129, 256, 257, 512, 513, 1024, 1025, 1500, 2500]
+        else:
+            lengths = list(range(2, 700)) + [1023, 1024, 1025, 1026, 2048, 2049, 4096, 4097, 5000, 20000]
+        for n_ in lengths:
+            for ops in ("+", "+-*"):
+                vals = [str(rng.range(1, 9)) for _ in range(n_)]
+                text = vals[0]
+                for v_ in vals[1:]:
+                    op = rng.choice(ops)
+                    text += (" " + op + " " if op in "+-" or rng.chance(1, 2) else op) + v_
+                cases.append(Case("query " + C.hexs(text), "long-chain", text[:60] + f"… ({n_} operands)", expect=f"{eval(text)}/1"))
+        return cases
 
 
 class C10(ExprProp):
-    """Theorems C10_floor/ceil/round(+_char)/builtin_*/arity_*: num-rational's integer algorithms (mirrored in the model) equal the order-theoretic floor, ceiling, round-half-away and round-to-n-digits for every rational; unit carried through; wrong arity is an error. Correspondence on a boundary grid. End to end: `C10_query` (Props/C10Query.lean) — calls written as queries over arbitrary argument expressions."""
+    """Theorems C10_floor/ceil/round(+_char)/builtin_*/arity_*: num-rational's integer algorithms (mirrored in the model) equal the order-theoretic floor, ceiling, round-half-away and round-to-n-digits for every rational; unit carried through; wrong arity is an error. Correspondence on a boundary grid. End to end: `C10_query` (Props/C10Query.lean) — calls written as queries over arbitrary argument expressions. Unified language (Props/UnifiedQuery.lean): `C10_query_unified_full` — floor/ceil/round/round(e, n) over quantity expressions with fact leaves."""
     id = "C10"
     needs_knobs = ("builtins",)
-    extra_modules = ["Anything.Props.C10Query"]
+    extra_modules = ["Anything.Props.C10Query", "Anything.Props.UnifiedQuery"]
     module = "Anything.Props.C10"
     trusted = ["Spec.Arith.floorI/ceilI/roundHalfAway/roundTo are human input (order-theoretic definitions)"]
 
@@ -153,6 +195,14 @@ class C10(ExprProp):
         for x in vals:
             for n in digits:
                 items.append((Call("round", [L(x), L(str(n))]), [], "grid-2"))
+        # the whole range of digit counts, far beyond what a machine word holds (10^20 > 2^64,
+        # 10^39 > 2^128, 10^309 > f64::MAX), on values with non-terminating and very long expansions
+        wide = list(range(-70, 71)) + [100, -100, 127, 128, -128, 255, 256, -256, 300, -300, 310, -310]
+        LONG = "12345678901234567890123456789012345678901234567890.12345678901234567890123456789012345678901234567890"
+        for n_ in wide:
+            for x in (G.mk_bin("/", L("1"), L("3")), G.mk_bin("/", L("-20000000000000000000000000000000000000000000001"), L("7")),
+                      L(LONG), L("-" + LONG), L("0.5")):
+                items.append((Call("round", [x, L(str(n_))]), [], "wide-n"))
         n = 800 if tier == "quick" else 20000
         for _ in range(n):
             x = G.rand_literal(rng, allow_pct=False).s
@@ -176,10 +226,14 @@ class C10(ExprProp):
             w = rng.choice(v.plain_words)
             x = rng.choice(grid)
             f = rng.choice(["floor", "ceil", "round"])
-            pending.append((f, x, w))
-        rc, out, err = C.run_lines(C.driver_bin(), [G.expr_line(Call(f, [L(x)]), []) for f, x, w in pending])
-        for (f, x, w), o in zip(pending, out):
+            pending.append((f, x, w, None))
+        for n_ in (-45, -40, -39, -38, -21, -20, -19, 19, 20, 21, 38, 39, 40, 45, 64, 128):
+            for x in (LONG, "-" + LONG):
+                pending.append(("round", x, rng.choice(v.plain_words), n_))
+        rc, out, err = C.run_lines(C.driver_bin(), [G.expr_line(Call(f, [L(x)] + ([] if n_ is None else [L(str(n_))])), [])
+                                                    for f, x, w, n_ in pending])
+        for (f, x, w, n_), o in zip(pending, out):
             val = o.split(" ")[2]
-            text = f"{f}({x} {w[0]}{w[1]})"
+            text = f"{f}({x} {w[0]}{w[1]})" if n_ is None else f"{f}({x} {w[0]}{w[1]}, {n_})"
             cases.append(Case("query " + C.hexs(text), "unit-kept", text, expect=(val, f"{w[2]}:1:{w[3]}")))
         return cases
